@@ -194,12 +194,12 @@ func (r *refRules) commit(get refView, bs *hotstuff.Block) (c *hotstuff.Block, o
 
 func monC04(w *World) {
 	refs := map[*Node]*refRules{}
-	w.hooks.onRule = append(w.hooks.onRule, func(nd *Node, kind string, view hotstuff.View, p *hotstuff.ProposeMsg, b *hotstuff.Block, vote bool, commit *hotstuff.Block) {
+	w.hooks.onRule = append(w.hooks.onRule, func(nd *Node, kind string, view hotstuff.View, p *hotstuff.ProposeMsg, b *hotstuff.Block) func(vote bool, commit *hotstuff.Block) {
 		if !nd.honest || w.viol != nil {
-			return
+			return nil
 		}
 		if nd.byz != nil {
-			return
+			return nil
 		}
 		r := refs[nd]
 		if r == nil {
@@ -231,39 +231,49 @@ func monC04(w *World) {
 				r.lock = l
 			}
 		}
+		// The reference is evaluated on the store as it is BEFORE the real rule runs: the rule may fetch blocks,
+		// and whether such a fetch succeeds is the network's business, not the rule's.
 		switch kind {
 		case "vote":
+			lockBefore := r.lock
 			want, ok := r.vote(get, view, *p)
-			if !ok || missing {
-				w.probe("c04-abstain")
-				return
-			}
-			w.probe("c04-vote-compared")
-			if want {
-				w.probe("c04-vote-yes")
-			}
-			if want != vote {
-				w.violate("C04", "C04/"+w.plan.Ruleset+"/vote", nd, "%s: vote rule says %v for %s in view %d with lock %s; the published rule says %v", nd, vote, sym(p.Block), view, sym(r.lock), want)
+			abstain := !ok || missing
+			return func(vote bool, _ *hotstuff.Block) {
+				if abstain {
+					w.probe("c04-abstain")
+					return
+				}
+				w.probe("c04-vote-compared")
+				if want {
+					w.probe("c04-vote-yes")
+				}
+				if want != vote {
+					w.violate("C04", "C04/"+w.plan.Ruleset+"/vote", nd, "%s: vote rule says %v for %s in view %d with lock %s; the published rule says %v", nd, vote, sym(p.Block), view, sym(lockBefore), want)
+				}
 			}
 		case "commit":
 			want, ok := r.commit(get, b)
-			if !ok || missing {
-				w.probe("c04-abstain")
-				resync()
-				return
-			}
-			w.probe("c04-commit-compared")
-			if want != nil {
-				w.probe("c04-commit-yes")
-			}
-			if (want == nil) != (commit == nil) || (want != nil && want.Hash() != commit.Hash()) {
-				w.violate("C04", "C04/"+w.plan.Ruleset+"/commit", nd, "%s: commit rule on %s returns %s; the published rule commits %s", nd, sym(b), sym(commit), sym(want))
-				return
-			}
-			if l := nd.rules.lock(); l != nil && l.Hash() != r.lock.Hash() {
-				w.violate("C04", "C04/"+w.plan.Ruleset+"/lock", nd, "%s: after the commit rule on %s the lock is %s; the published rule locks %s", nd, sym(b), sym(l), sym(r.lock))
+			abstain := !ok || missing
+			return func(_ bool, commit *hotstuff.Block) {
+				if abstain {
+					w.probe("c04-abstain")
+					resync()
+					return
+				}
+				w.probe("c04-commit-compared")
+				if want != nil {
+					w.probe("c04-commit-yes")
+				}
+				if (want == nil) != (commit == nil) || (want != nil && want.Hash() != commit.Hash()) {
+					w.violate("C04", "C04/"+w.plan.Ruleset+"/commit", nd, "%s: commit rule on %s returns %s; the published rule commits %s", nd, sym(b), sym(commit), sym(want))
+					return
+				}
+				if l := nd.rules.lock(); l != nil && l.Hash() != r.lock.Hash() {
+					w.violate("C04", "C04/"+w.plan.Ruleset+"/lock", nd, "%s: after the commit rule on %s the lock is %s; the published rule locks %s", nd, sym(b), sym(l), sym(r.lock))
+				}
 			}
 		}
+		return nil
 	})
 }
 
